@@ -93,7 +93,7 @@ Proof.
   intros l b Hd Hn. induction Hd as [|a l Ha Hd IH]; cbn.
   - constructor; [intros [] | constructor].
   - constructor.
-    + intro H. apply in_app_or in H. destruct H as [H|[H|[]]]; [contradiction | apply Hn; left; exact H].
+    + intro H. apply in_app_or in H. destruct H as [H|[H|[]]]; [contradiction | apply Hn; left; symmetry; exact H].
     + apply IH. intro H. apply Hn. right. exact H.
 Qed.
 
@@ -104,8 +104,8 @@ Proof.
   assert (Hfresh : forall x, In x (live s) -> x <> next s) by (intros x Hx E; apply Hb in Hx; lia).
   assert (Htop : top < next s) by (apply Hb; apply Hl; left; reflexivity).
   assert (Hnb : ~ In (next s) (els s)) by (intro H; apply (Hfresh (next s)); [apply Hl; right; right; exact H | reflexivity]).
-  unfold step_ok, alloc_elem, append, grow; cbn.
-  destruct (length (els s) <? cap s) eqn:Ecap; cbn.
+  unfold step_ok, append, alloc_elem. cbv beta iota. unfold grow, linv. cbn [els cap live next arr].
+  destruct (length (els s) <? cap s) eqn:Ecap; cbn [els cap live next arr].
   - (* room in the array *)
     repeat split.
     + apply nodup_snoc; assumption.
@@ -133,7 +133,7 @@ Proof.
     repeat split.
     + apply nodup_snoc; assumption.
     + intro H. apply in_app_or in H. destruct H as [H|[H|[]]]; [contradiction | unfold top, b in *; lia].
-    + intro E. inversion E. unfold top, n, b in *. lia.
+    + intro E. inversion E; try (unfold top, n, b in *; lia).
     + intros a Ha H. inversion Ha; subst a. apply in_app_or in H. destruct H as [H|[H|[]]].
       * assert (n < next s) by (apply Hb; apply Hl; right; right; exact H). unfold n, b in *. lia.
       * unfold n, b in *. lia.
@@ -146,7 +146,7 @@ Proof.
       * left. inversion H. reflexivity.
       * apply in_app_or in H. destruct H as [H|[H|[]]].
         -- right. apply Hrm. split; [right; apply Hl; right; right; exact H|]. intro E. exact (Hae _ E H).
-        -- right. apply Hrm. split; [left; symmetry; exact H|]. intro E. subst x.
+        -- right. apply Hrm. split; [left; symmetry; exact H|]. intro E. subst b0.
            apply (Hfresh b); [apply Hl; right; left; exact E | reflexivity].
     + constructor.
       * intro H. apply Hrm in H. destruct H as [[H|H] _]; [unfold n in H; lia|]. apply Hb in H. unfold n, b in *. lia.
@@ -220,9 +220,8 @@ Proof.
   destruct (exit_correct x (steps k linit) (linv_steps k _ linv_init)) as (s & E & H).
   unfold list_run. rewrite E. pose proof (owners_nodup s H) as Ho. pose proof (owners_live s H) as Hl.
   assert (Hp : Permutation (owners s) (struct_free s)).
-  { unfold owners, struct_free. change (top :: opt_l (arr s) ++ els s) with ([top] ++ (opt_l (arr s) ++ els s)).
-    rewrite Permutation_app_comm. rewrite <- app_assoc. apply Permutation_app_comm_trans || idtac.
-    eapply Permutation_trans; [apply Permutation_app_tail; apply Permutation_app_comm|]. rewrite <- app_assoc. reflexivity. }
+  { unfold owners, struct_free. eapply Permutation_trans; [apply Permutation_cons_append|].
+    rewrite app_assoc. apply Permutation_app_tail. apply Permutation_app_comm. }
   destruct H as (_ & _ & _ & _ & _ & Hd & _).
   apply lfrees_all; [eapply Permutation_NoDup; eassumption | exact Hd |].
   intro b. rewrite Hl. split; intro Hb; [eapply Permutation_in; eassumption | eapply Permutation_in; [apply Permutation_sym; eassumption | exact Hb]].
@@ -262,9 +261,9 @@ Proof.
   - destruct ok.
     + destruct (buf d) as [o|] eqn:Eb; cbn [lrealloc]; rewrite H; cbn [opt_l].
       * rewrite lfree_single. eexists; eexists; split; [reflexivity|]. unfold dinv; cbn.
-        repeat split; try reflexivity; try discriminate. intros _ _; discriminate.
+        repeat split; try reflexivity; try discriminate; try (intros _ _; discriminate).
       * eexists; eexists; split; [reflexivity|]. unfold dinv; cbn.
-        repeat split; try reflexivity; try discriminate. intros _ _; discriminate.
+        repeat split; try reflexivity; try discriminate; try (intros _ _; discriminate).
     + destruct (buf d) as [o|] eqn:Eb.
       * rewrite H; cbn [opt_l]. rewrite lfree_single. eexists; eexists; split; [reflexivity|]. unfold dinv; cbn.
         repeat split; try reflexivity; try discriminate.
